@@ -13,7 +13,11 @@ encoding int / list / np.array / tensor)
    sum_{s1,s2} p(s1) p(s2)/Z^2 * value(s1, s2)  ==  tr(rho_A^2)   (numpy partial trace of the normalised state),
 the derived Renyi entropy is >= 0, equal for a region and its complement of a pure state, zero for the empty /
 full region of a pure state; in a longer batch every row is paired with a cyclic neighbour (a shift by one in either
-direction, the same for all rows, so every row is used once in each replica role); the batch is unchanged."""
+direction, the same for all rows, so every row is used once in each replica role); the batch is unchanged.
+Object history (red team 2): ONE observable object and ONE region object meet states of several sizes in turn (the estimator is the
+purity of the region the encoding denotes for the CURRENT size), values handed out by an earlier apply stay what they were when the
+observable is applied again, statistics_from_samples averages exactly the per-row values (num_samples == rows).  Strongly polarised
+pure states (|effective energy| up to ~650, where |psi|^2 is still a double) are held to the same oracle and the model."""
 import itertools, math, time
 import numpy as np
 import gen
@@ -587,13 +591,13 @@ def sample_regions(ctx, n, k):
     return pick
 
 
-def huge_pure(ctx, kind, nv, variant=None, n_regions=None):
+def huge_pure(ctx, kind, nv, variant=None, n_regions=None, with_model=True):
     nh = int(ctx.rng.integers(1, nv + 2))
     params = draw_huge(ctx, kind, nv, nh, variant)
     if params is None:
         return
     ctx.torch_seed()
-    check_state(ctx, kind, nv, nh, 0, params, regions=(sample_regions(ctx, nv, n_regions) if n_regions else None))
+    check_state(ctx, kind, nv, nh, 0, params, with_model=with_model, regions=(sample_regions(ctx, nv, n_regions) if n_regions else None))
 
 
 def fixed_first(ctx):
@@ -643,6 +647,14 @@ def run(ctx):
 def search(ctx, broken, budget):
     t0 = time.time()
     n0 = len(ctx.failures)
+    object_history(ctx, FIXED_HISTORY)
+    object_history(ctx, random_history_spec(ctx))
+    for kind in ("positive", "complex"):
+        for nv in (2, 3):
+            if len(ctx.failures) == n0:
+                huge_pure(ctx, kind, nv, with_model=False)
+    if len(ctx.failures) > n0:
+        return ctx.failures[n0]
     for rep in range(4):
         for nv in (1, 2, 3):
             for kind in ("positive", "complex", "mixed"):
